@@ -137,6 +137,17 @@ class Ctx:
         res["printed"] = parse_printed(out)
         return res
 
+    def apalache(self, module, args, name=None, timeout=600):
+        """Run apalache-mc check on spec/<module>.tla in a scratch dir; returns (ok, tail of output)."""
+        d = self.sub(name or ("apalache-" + module))
+        shutil.copy(os.path.join(SPEC, module + ".tla"), d)
+        env = dict(os.environ)
+        env["JAVA_TOOL_OPTIONS"] = "-Djava.io.tmpdir=%s" % d
+        p = subprocess.run(["timeout", str(timeout), "apalache-mc", "check", "--out-dir=" + os.path.join(d, "out")]
+                           + list(args) + [module + ".tla"], cwd=d, env=env, stdout=subprocess.PIPE,
+                           stderr=subprocess.STDOUT, text=True, errors="replace")
+        return ("EXITCODE: OK" in p.stdout and p.returncode == 0), p.stdout[-600:]
+
     def tlc_expect_ok(self, module, cfg, **kw):
         r = self.tlc(module, cfg, **kw)
         if not r["ok"]:
